@@ -4,6 +4,7 @@ import (
 	"fmt"
 
 	"github.com/creachadair/mds/stree"
+	"verif/elem"
 	"verif/vk"
 )
 
@@ -14,6 +15,7 @@ type Move struct {
 }
 
 // CursorCase builds a tree by a history and then exercises cursors on it.
+// The element type of the tree (and so of its cursors) is Tree.Elem.
 type CursorCase struct {
 	Tree  TreeCase `json:"tree"`
 	Moves []Move   `json:"moves"`
@@ -32,38 +34,46 @@ type shape struct {
 	root  int
 }
 
-type cursorRun struct {
+type cursorRun[T any] struct {
 	c     CursorCase
-	t     *stree.Tree[Key]
+	tr    *treeRun[T] // the run that built the tree: element conversions
+	t     *stree.Tree[T]
 	keys  []Key // sorted reference
 	sh    shape
 	phase string
 }
 
-func (r *cursorRun) errf(format string, args ...any) string {
-	return fmt.Sprintf("cursor check [%s] (beta %d, %d keys): %s", r.phase, r.c.Tree.Beta, len(r.keys), fmt.Sprintf(format, args...))
+func (r *cursorRun[T]) errf(format string, args ...any) string {
+	el := ""
+	if r.c.Tree.Elem != "" || r.c.Tree.Rev {
+		el = fmt.Sprintf(", elem %q rev %v", r.c.Tree.Elem, r.c.Tree.Rev)
+	}
+	return fmt.Sprintf("cursor check [%s] (beta %d, %d keys%s): %s", r.phase, r.c.Tree.Beta, len(r.keys), el, fmt.Sprintf(format, args...))
 }
 
-func inorderOf(c *stree.Cursor[Key]) []Key {
+// key is the cursor's Key() in the model's terms.
+func (r *cursorRun[T]) key(c *stree.Cursor[T]) Key { return r.tr.key(c.Key()) }
+
+func (r *cursorRun[T]) inorderOf(c *stree.Cursor[T]) []Key {
 	var out []Key
-	c.Inorder(func(k Key) bool { out = append(out, k); return true })
+	c.Inorder(func(x T) bool { out = append(out, r.tr.key(x)); return true })
 	return out
 }
 
 // build reconstructs the tree shape through Clone/Left/Right only and checks
 // every structural clause of the property on the way.
-func (r *cursorRun) build(c *stree.Cursor[Key], parent, depth int) (int, string) {
+func (r *cursorRun[T]) build(c *stree.Cursor[T], parent, depth int) (int, string) {
 	idx := len(r.sh.nodes)
-	r.sh.nodes = append(r.sh.nodes, shapeNode{key: c.Key(), left: -1, right: -1, parent: parent, depth: depth})
+	r.sh.nodes = append(r.sh.nodes, shapeNode{key: r.key(c), left: -1, right: -1, parent: parent, depth: depth})
 	if depth > len(r.keys) {
 		return idx, r.errf("descending through Left/Right reached depth %d in a tree of %d keys (cycle?)", depth, len(r.keys))
 	}
-	k := c.Key()
+	k := r.key(c)
 	if _, dup := r.sh.byK[k.K]; dup {
 		return idx, r.errf("key %v reachable through two different paths", k)
 	}
 	r.sh.byK[k.K] = idx
-	win := inorderOf(c)
+	win := r.inorderOf(c)
 	if len(win) == 0 {
 		return idx, r.errf("Inorder of a valid cursor at %v is empty", k)
 	}
@@ -86,14 +96,14 @@ func (r *cursorRun) build(c *stree.Cursor[Key], parent, depth int) (int, string)
 	hi := lo + len(win)
 	r.sh.nodes[idx].lo, r.sh.nodes[idx].hi = lo, hi
 	// Min / Max of the subtree are the window's ends and must not disturb the origin.
-	if got := c.Clone().Min().Key(); got != win[0] {
+	if got := r.key(c.Clone().Min()); got != win[0] {
 		return idx, r.errf("Min from %v gives %v, subtree minimum is %v", k, got, win[0])
 	}
-	if got := c.Clone().Max().Key(); got != win[len(win)-1] {
+	if got := r.key(c.Clone().Max()); got != win[len(win)-1] {
 		return idx, r.errf("Max from %v gives %v, subtree maximum is %v", k, got, win[len(win)-1])
 	}
-	if c.Key() != k {
-		return idx, r.errf("moving a Clone changed the original cursor from %v to %v", k, c.Key())
+	if r.key(c) != k {
+		return idx, r.errf("moving a Clone changed the original cursor from %v to %v", k, r.key(c))
 	}
 	var lw, rw []Key
 	l := c.Clone().Left()
@@ -112,14 +122,14 @@ func (r *cursorRun) build(c *stree.Cursor[Key], parent, depth int) (int, string)
 				return idx, r.errf("key %v is reachable through Left of %v but is not smaller", x, k)
 			}
 		}
-		if up := l.Clone().Up(); !up.Valid() || up.Key() != k {
-			return idx, r.errf("Left then Up from %v arrives at %v (valid=%v)", k, up.Key(), up.Valid())
+		if up := l.Clone().Up(); !up.Valid() || r.key(up) != k {
+			return idx, r.errf("Left then Up from %v arrives at %v (valid=%v)", k, r.key(up), up.Valid())
 		}
 		if !l.HasParent() {
 			return idx, r.errf("HasParent is false on the left child of %v", k)
 		}
-	} else if l.Key() != (Key{}) {
-		return idx, r.errf("Left from %v (no left child) is invalid but Key() = %v, want zero", k, l.Key())
+	} else if !r.tr.isZero(l.Key()) {
+		return idx, r.errf("Left from %v (no left child) is invalid but Key() = %v, want zero", k, r.key(l))
 	}
 	rc := c.Clone().Right()
 	if rc.Valid() != c.HasRight() {
@@ -137,8 +147,8 @@ func (r *cursorRun) build(c *stree.Cursor[Key], parent, depth int) (int, string)
 				return idx, r.errf("key %v is reachable through Right of %v but is not larger", x, k)
 			}
 		}
-		if up := rc.Clone().Up(); !up.Valid() || up.Key() != k {
-			return idx, r.errf("Right then Up from %v arrives at %v (valid=%v)", k, up.Key(), up.Valid())
+		if up := rc.Clone().Up(); !up.Valid() || r.key(up) != k {
+			return idx, r.errf("Right then Up from %v arrives at %v (valid=%v)", k, r.key(up), up.Valid())
 		}
 		if !rc.HasParent() {
 			return idx, r.errf("HasParent is false on the right child of %v", k)
@@ -152,41 +162,41 @@ func (r *cursorRun) build(c *stree.Cursor[Key], parent, depth int) (int, string)
 }
 
 // pos is the model of a cursor: index into shape.nodes or -1 (invalid).
-func (r *cursorRun) succ(p int) int {
+func (r *cursorRun[T]) succ(p int) int {
 	i := r.sh.nodes[p].lo + r.leftSize(p) + 1 // rank+1 in the sorted list
 	if i >= len(r.keys) {
 		return -1
 	}
 	return r.sh.byK[r.keys[i].K]
 }
-func (r *cursorRun) pred(p int) int {
+func (r *cursorRun[T]) pred(p int) int {
 	i := r.sh.nodes[p].lo + r.leftSize(p) - 1
 	if i < 0 {
 		return -1
 	}
 	return r.sh.byK[r.keys[i].K]
 }
-func (r *cursorRun) leftSize(p int) int {
+func (r *cursorRun[T]) leftSize(p int) int {
 	if l := r.sh.nodes[p].left; l >= 0 {
 		return r.sh.nodes[l].hi - r.sh.nodes[l].lo
 	}
 	return 0
 }
-func (r *cursorRun) rank(p int) int { return r.sh.nodes[p].lo + r.leftSize(p) }
+func (r *cursorRun[T]) rank(p int) int { return r.sh.nodes[p].lo + r.leftSize(p) }
 
 // checkAt compares every observer of cursor c with model position p.
-func (r *cursorRun) checkAt(c *stree.Cursor[Key], p int, what string) string {
+func (r *cursorRun[T]) checkAt(c *stree.Cursor[T], p int, what string) string {
 	if p < 0 {
 		if c.Valid() {
-			return r.errf("%s: cursor should be invalid but is valid at %v", what, c.Key())
+			return r.errf("%s: cursor should be invalid but is valid at %v", what, r.key(c))
 		}
-		if c.Key() != (Key{}) {
-			return r.errf("%s: invalid cursor Key() = %v, want the zero key", what, c.Key())
+		if !r.tr.isZero(c.Key()) {
+			return r.errf("%s: invalid cursor Key() = %v, want the zero key", what, r.key(c))
 		}
 		if c.HasLeft() || c.HasRight() || c.HasParent() || c.HasNext() || c.HasPrev() {
 			return r.errf("%s: invalid cursor reports HasLeft/Right/Parent/Next/Prev = %v/%v/%v/%v/%v", what, c.HasLeft(), c.HasRight(), c.HasParent(), c.HasNext(), c.HasPrev())
 		}
-		if got := inorderOf(c); len(got) != 0 {
+		if got := r.inorderOf(c); len(got) != 0 {
 			return r.errf("%s: Inorder of an invalid cursor yields %d keys", what, len(got))
 		}
 		return ""
@@ -195,8 +205,8 @@ func (r *cursorRun) checkAt(c *stree.Cursor[Key], p int, what string) string {
 	if !c.Valid() {
 		return r.errf("%s: cursor is invalid, should be at %v", what, n.key)
 	}
-	if c.Key() != n.key {
-		return r.errf("%s: cursor is at %v, should be at %v", what, c.Key(), n.key)
+	if r.key(c) != n.key {
+		return r.errf("%s: cursor is at %v, should be at %v", what, r.key(c), n.key)
 	}
 	if c.HasLeft() != (n.left >= 0) || c.HasRight() != (n.right >= 0) || c.HasParent() != (n.parent >= 0) {
 		return r.errf("%s: at %v HasLeft/HasRight/HasParent = %v/%v/%v, tree shape says %v/%v/%v", what, n.key, c.HasLeft(), c.HasRight(), c.HasParent(), n.left >= 0, n.right >= 0, n.parent >= 0)
@@ -208,38 +218,59 @@ func (r *cursorRun) checkAt(c *stree.Cursor[Key], p int, what string) string {
 }
 
 // checkKeyOnly compares Valid and Key only (no Has* predicate is called).
-func (r *cursorRun) checkKeyOnly(c *stree.Cursor[Key], p int, what string) string {
+func (r *cursorRun[T]) checkKeyOnly(c *stree.Cursor[T], p int, what string) string {
 	if p < 0 {
-		if c.Valid() || c.Key() != (Key{}) {
-			return r.errf("%s: cursor should be invalid but Valid=%v Key=%v", what, c.Valid(), c.Key())
+		if c.Valid() || !r.tr.isZero(c.Key()) {
+			return r.errf("%s: cursor should be invalid but Valid=%v Key=%v", what, c.Valid(), r.key(c))
 		}
 		return ""
 	}
-	if !c.Valid() || c.Key() != r.sh.nodes[p].key {
-		return r.errf("%s: cursor is at %v (valid=%v), should be at %v", what, c.Key(), c.Valid(), r.sh.nodes[p].key)
+	if !c.Valid() || r.key(c) != r.sh.nodes[p].key {
+		return r.errf("%s: cursor is at %v (valid=%v), should be at %v", what, r.key(c), c.Valid(), r.sh.nodes[p].key)
 	}
 	return ""
 }
 
+// runC03 is the RunFunc of C03; it switches on the element kind of the tree.
 func runC03(c CursorCase, o *vk.Obs) string {
-	tr, msg := runTree(c.Tree, mode{model: true}, &vk.Obs{})
+	switch c.Tree.Elem {
+	case "":
+		return runCursorOn(c, o, keyKit())
+	case elem.Int:
+		return runCursorOn(c, o, elem.IntKit())
+	case elem.Str:
+		return runCursorOn(c, o, elem.StrKit())
+	case elem.Wide:
+		return runCursorOn(c, o, elem.WideKit())
+	case elem.Ptr:
+		return runCursorOn(c, o, elem.PtrKit())
+	case elem.Any:
+		return runCursorOn(c, o, elem.AnyKit())
+	case elem.Bytes:
+		return runCursorOn(c, o, elem.BytesKit())
+	}
+	return fmt.Sprintf("VK-INFRA unknown element kind %q", c.Tree.Elem)
+}
+
+func runCursorOn[T any](c CursorCase, o *vk.Obs, kit elem.Kit[T]) string {
+	tr, msg := runTreeOn(c.Tree, mode{model: true}, &vk.Obs{}, kit)
 	if msg != "" {
 		return "while building the tree: " + msg
 	}
 	in := tr.insts[tr.act]
-	r := &cursorRun{c: c, t: in.t, keys: in.m.ks}
+	r := &cursorRun[T]{c: c, tr: tr, t: in.t, keys: in.m.ks}
 	r.sh.byK = map[int64]int{}
 	r.sh.root = -1
 
 	// (e) nil cursor: every method is a harmless no-op
 	r.phase = "nil cursor"
-	var nilc *stree.Cursor[Key]
+	var nilc *stree.Cursor[T]
 	if msg := r.checkAt(nilc, -1, "nil cursor"); msg != "" {
 		return msg
 	}
-	for _, f := range []func(*stree.Cursor[Key]) *stree.Cursor[Key]{
-		(*stree.Cursor[Key]).Next, (*stree.Cursor[Key]).Prev, (*stree.Cursor[Key]).Left, (*stree.Cursor[Key]).Right,
-		(*stree.Cursor[Key]).Up, (*stree.Cursor[Key]).Min, (*stree.Cursor[Key]).Max, (*stree.Cursor[Key]).Clone,
+	for _, f := range []func(*stree.Cursor[T]) *stree.Cursor[T]{
+		(*stree.Cursor[T]).Next, (*stree.Cursor[T]).Prev, (*stree.Cursor[T]).Left, (*stree.Cursor[T]).Right,
+		(*stree.Cursor[T]).Up, (*stree.Cursor[T]).Min, (*stree.Cursor[T]).Max, (*stree.Cursor[T]).Clone,
 	} {
 		if got := f(nilc); got != nil {
 			return r.errf("a move on a nil cursor returned a non-nil cursor")
@@ -252,7 +283,7 @@ func runC03(c CursorCase, o *vk.Obs) string {
 		if root.Valid() {
 			return r.errf("Root() of an empty tree is valid")
 		}
-		if cc := r.t.Cursor(Key{K: 5}); cc.Valid() {
+		if cc := r.t.Cursor(tr.mk(Key{K: 5})); cc.Valid() {
 			return r.errf("Cursor(key) on an empty tree is valid")
 		}
 		return r.checkAt(root, -1, "Root of empty tree")
@@ -278,7 +309,7 @@ func runC03(c CursorCase, o *vk.Obs) string {
 		return r.errf("structure walk found %d nodes for %d keys", len(r.sh.nodes), len(r.keys))
 	}
 	if up := root.Clone().Up(); up.Valid() {
-		return r.errf("Up from the root stays valid at %v", up.Key())
+		return r.errf("Up from the root stays valid at %v", r.key(up))
 	}
 
 	// NT measurement: height >= 4 and a node whose successor is an ancestor >= 2 levels up
@@ -300,11 +331,12 @@ func runC03(c CursorCase, o *vk.Obs) string {
 	o.ClassIf(height >= 8, "height>=8")
 	o.ClassIf(farSucc, "successor_is_far_ancestor")
 	o.ClassIf(c.Tree.Beta >= 900, "beta>=900")
+	classElem(o, c.Tree.Elem, c.Tree.Rev)
 
 	// (a) Cursor(key) for every key, and for absent keys
 	r.phase = "Cursor(key)"
 	for i, k := range r.keys {
-		cc := r.t.Cursor(Key{K: k.K, Tag: -77})
+		cc := r.t.Cursor(tr.mk(Key{K: k.K, Tag: -77}))
 		if msg := r.checkAt(cc, r.sh.byK[k.K], fmt.Sprintf("Cursor(%v)", kstr(k.K))); msg != "" {
 			return msg
 		}
@@ -353,7 +385,7 @@ func runC03(c CursorCase, o *vk.Obs) string {
 		if _, present := in.m.find(ak); present {
 			continue
 		}
-		cc := r.t.Cursor(Key{K: ak})
+		cc := r.t.Cursor(tr.mk(Key{K: ak}))
 		if msg := r.checkAt(cc, -1, fmt.Sprintf("Cursor(absent %s)", kstr(ak))); msg != "" {
 			return msg
 		}
@@ -361,14 +393,14 @@ func runC03(c CursorCase, o *vk.Obs) string {
 
 	// (d) random move sequences on two cursors (the second is a Clone)
 	r.phase = "moves"
-	curs := []*stree.Cursor[Key]{root.Clone()}
+	curs := []*stree.Cursor[T]{root.Clone()}
 	pos := []int{r.sh.root}
 	act := 0
 	for mi, mv := range c.Moves {
 		cc, p := curs[act], pos[act]
 		np := p
 		what := fmt.Sprintf("move#%d %s on cursor %d", mi, mv.Kind, act)
-		var ret *stree.Cursor[Key]
+		var ret *stree.Cursor[T]
 		switch mv.Kind {
 		case "left":
 			ret = cc.Left()
@@ -425,14 +457,14 @@ func runC03(c CursorCase, o *vk.Obs) string {
 			ret = cc
 		case "goto": // re-anchor this cursor at the (A mod n)-th key
 			k := r.keys[mv.A%len(r.keys)]
-			curs[act] = r.t.Cursor(Key{K: k.K})
+			curs[act] = r.t.Cursor(tr.mk(Key{K: k.K}))
 			pos[act] = r.sh.byK[k.K]
 			cc, np, ret = curs[act], pos[act], curs[act]
 		case "clone":
 			cl := cc.Clone()
 			if !cc.Valid() {
 				// Clone of an invalid cursor may be the cursor itself: keep a fresh one instead
-				cl = r.t.Cursor(Key{K: -12345})
+				cl = r.t.Cursor(tr.mk(Key{K: -12345}))
 				if cl.Valid() {
 					return r.errf("Cursor(absent) valid")
 				}
@@ -448,7 +480,7 @@ func runC03(c CursorCase, o *vk.Obs) string {
 			act = (act + 1) % len(curs)
 			continue
 		case "inorder":
-			got := inorderOf(cc)
+			got := r.inorderOf(cc)
 			var want []Key
 			if p >= 0 {
 				want = r.keys[r.sh.nodes[p].lo:r.sh.nodes[p].hi]
@@ -464,7 +496,7 @@ func runC03(c CursorCase, o *vk.Obs) string {
 			if len(want) > 1 { // stoppable
 				j := mv.A%len(want) + 1
 				calls := 0
-				cc.Inorder(func(Key) bool { calls++; return calls < j })
+				cc.Inorder(func(T) bool { calls++; return calls < j })
 				if calls != j {
 					return r.errf("%s: Inorder made %d callbacks after being told to stop at %d", what, calls, j)
 				}
